@@ -70,6 +70,7 @@ class Profile:
         self.mask_choices = [1, 2, 4, 8, 3, 6, 2, 2, 1]
         self.mbtns = [0, 1]
         self.script_kinds = [0, 0, 1, 2, 3]   # condition kinds of the scripted conditions (0 explicit 1 implicit 2 blocker 3 events-only)
+        self.distinct_actions = True   # context types of one scenario bind disjoint sets of actions (when the pool allows)
         self.log_raw_p = 0.0           # probability that an input gets a logging identity modifier first
         for k, v in kw.items():
             if not hasattr(self, k):
@@ -187,6 +188,7 @@ class AppGen:
         ctxs = r.sample(p.ctx_pool, min(self.ri(p.n_ctx), len(p.ctx_pool)))
         self.ctx_variants = {}
         self.bound_inputs = []
+        self.action_owner = {}
         for c in sorted(ctxs):
             nv = self.ri(p.n_variants)
             self.ctx_variants[c] = list(range(nv))
@@ -195,7 +197,16 @@ class AppGen:
                     lines.append(f"ctx {c} {v} pad {r.choice(pads_used)}")
                 else:
                     lines.append(f"ctx {c} {v} any")
-                acts = r.sample(p.actions, min(self.ri(p.n_actions), len(p.actions)))
+                pool = p.actions
+                if p.distinct_actions:
+                    # different context types bind different actions, so that the deliveries of one (entity, action) pair
+                    # always come from one context (their order across contexts is the registry's business, C06)
+                    free = [a for a in p.actions if self.action_owner.get(a, c) == c]
+                    if len(free) >= 2:
+                        pool = free
+                acts = r.sample(pool, min(self.ri(p.n_actions), len(pool)))
+                for a in acts:
+                    self.action_owner.setdefault(a, c)
                 order = list(acts)
                 # re-binding: some action appears twice
                 if order and r.random() < p.rebind_p:
